@@ -138,6 +138,31 @@ Definition div_body (R : grec) (sp : span) (a b : tyid) : M unit :=
        | _ => fail KBinOp sp
        end.
 
+(* fn check_not_inside (since 1d60c01): an unknown type cannot become a tuple that contains itself as a (nested)
+   component.  One turn of the `while let Some(ty) = todo.pop()` loop; `todo` is the stack with its top first,
+   `seen` the set of representatives already visited.  Only tuples are descended into: lists, blobs and enums may
+   still be cyclic.  The state is only read. *)
+Definition inside_body (R : grec) (sp : span) (unknown : tyid) (todo seen : list tyid) : M unit :=
+  match todo with
+  | [] => ret tt
+  | ty :: todo =>
+    ty <- find ty ;;
+    if existsb (Pos.eqb ty) seen then g_inside R sp unknown todo seen else
+    let seen := ty :: seen in
+    t <- find_type ty ;;
+    match t with
+    | HTuple tys =>
+      let todo := rev tys ++ todo in
+      reps <- mapM find todo ;;
+      if existsb (Pos.eqb unknown) seen || existsb (Pos.eqb unknown) reps then fail KExotic sp
+      else g_inside R sp unknown todo seen
+    | _ => g_inside R sp unknown todo seen
+    end
+  end.
+
+Definition check_not_inside (R : grec) (sp : span) (unknown ty : tyid) : M unit :=
+  u <- find unknown ;; g_inside R sp u [ty] [].
+
 (* fn div_res (1907); arm order: (Float|Int, Float), (Unknown, _), (Float|Int, _), (Tuple, Unknown),
    (Tuple, Tuple) of equal length, otherwise Exotic *)
 Definition divres_body (R : grec) (sp : span) (a b : tyid) : M unit :=
@@ -150,6 +175,10 @@ Definition divres_body (R : grec) (sp : span) (a b : tyid) : M unit :=
        | HTuple xs =>
          match tb with
          | HUnknown =>
+           (* the result of dividing a tuple cannot be one of its own components (since 356c2fa): without the occurs
+              check every retry nested the result one level deeper -- `/` was the one operator whose constraint solving
+              could GROW a type (OutOfFuel here, a native stack overflow in the compiler) *)
+           check_not_inside R sp b a ;;;
            tys <- mapM (fun _ => push_type HUnknown) xs ;;
            tup <- push_type (HTuple tys) ;;
            unify R sp b tup ;;;
@@ -267,31 +296,6 @@ Fixpoint unify_fields (R : grec) (sp : span) (missing : ekind) (a_fields b_field
       unify_fields R sp missing a_fields rest (snd r)
     end
   end.
-
-(* fn check_not_inside (since 1d60c01): an unknown type cannot become a tuple that contains itself as a (nested)
-   component.  One turn of the `while let Some(ty) = todo.pop()` loop; `todo` is the stack with its top first,
-   `seen` the set of representatives already visited.  Only tuples are descended into: lists, blobs and enums may
-   still be cyclic.  The state is only read. *)
-Definition inside_body (R : grec) (sp : span) (unknown : tyid) (todo seen : list tyid) : M unit :=
-  match todo with
-  | [] => ret tt
-  | ty :: todo =>
-    ty <- find ty ;;
-    if existsb (Pos.eqb ty) seen then g_inside R sp unknown todo seen else
-    let seen := ty :: seen in
-    t <- find_type ty ;;
-    match t with
-    | HTuple tys =>
-      let todo := rev tys ++ todo in
-      reps <- mapM find todo ;;
-      if existsb (Pos.eqb unknown) seen || existsb (Pos.eqb unknown) reps then fail KExotic sp
-      else g_inside R sp unknown todo seen
-    | _ => g_inside R sp unknown todo seen
-    end
-  end.
-
-Definition check_not_inside (R : grec) (sp : span) (unknown ty : tyid) : M unit :=
-  u <- find unknown ;; g_inside R sp u [ty] [].
 
 (* fn sub_unify (1422) *)
 Definition unify_body (R : grec) (sp : span) (a b : tyid) (seen : seenset) : M (tyid * seenset) :=
